@@ -96,7 +96,7 @@ Theorem execute_callback_is_source : xc_table_ok = true.
 Proof. vm_compute. reflexivity. Qed.
 
 (* ---------- the scan over the callbacks in handleCallbacks: the FIRST one whose check holds ---------- *)
-From Scrapli Require Import DecideLoops.
+From Scrapli Require Import DecideLemmas.
 From Coq Require Import Arith Lia.
 Open Scope nat_scope.
 
@@ -180,3 +180,9 @@ Proof.
   induction cbs as [|c t IH]; intros b i; [reflexivity|].
   cbn [first_firing map first_true]. destruct (cb_check c b); [reflexivity | apply IH].
 Qed.
+
+(* every test the translated code makes is one the environment above was written for (an unknown
+   equality would otherwise evaluate to false without notice) *)
+Definition execute_callback_known : list string := "cb.Once" :: "cb.triggered" :: "cb.Callback == nil" :: "err == nil" :: "cb.Complete" :: "cb.ResetOutput" :: "cb.NextTimeout == 0" :: nil.
+Lemma execute_callback_tests_known : tests_known execute_callback_code execute_callback_known = true.
+Proof. vm_compute. reflexivity. Qed.
